@@ -837,6 +837,29 @@ def rule_loop_typestate(res, rid, m):
     return n
 
 
+def transition_binding(m, ivt, state_qname):
+    """(env(s, t) -> bindings for tables.ceval, index of the parameter that carries the incoming segment type).
+    Two shapes of the transition test: a member predicate over the stored state and one parameter, or a static predicate over
+    (previous, next) whose every call site passes the stored state member for `previous`."""
+    fb = m.fb
+    state_field = "this->" + state_qname.split("::")[-1]
+    if len(ivt.params) == 1:
+        return (lambda s, t: {state_field: s, ivt.params[0]["decl"]: t, "__fb__": fb}), 0
+    if len(ivt.params) == 2:
+        sites = [(h, facts.effective_call(c)) for h in fb.all_functions() if h.body is not None for c in h.calls() if fb.resolve_call(c) is ivt]
+        idx = set()
+        for h, c in sites:
+            for i, a in enumerate(c.get("args", [])):
+                e = strip_all_casts(facts.expand(h, a))
+                if e.get("k") == "member" and e.get("field") == state_qname:
+                    idx.add(i)
+        if sites and len(idx) == 1:
+            si = idx.pop()
+            ni = 1 - si
+            return (lambda s, t: {ivt.params[si]["decl"]: s, ivt.params[ni]["decl"]: t, state_field: s, "__fb__": fb}), ni
+    raise Broken("isValidSegmentType: cannot bind (stored state, incoming type) to its inputs")
+
+
 def default_state_rejects(m, aps):
     """(ok, text): a default-constructed reassembly entry can never accept a segment because of its segment state alone."""
     fb = m.fb
@@ -857,10 +880,13 @@ def default_state_rejects(m, aps):
     for p, r, ws in aps:
         if not any(a[0] == "truth" and a[2] is True and a[3].get("k") == "call" and callee_name(a[3]) == ivt.name for a in p.atoms):
             return False, "an accepting path does not pass the transition test"
-    state_field = "this->" + st[0]["qname"].split("::")[-1]
+    try:
+        tenv, _ = transition_binding(m, ivt, st[0]["qname"])
+    except Broken as e:
+        return False, str(e)
     for t in ("intermediarySegment", "lastSegment"):
         try:
-            if tables.ceval(ivt, {state_field: s0, ivt.params[0]["decl"]: vals[t], "__fb__": fb}):
+            if tables.ceval(ivt, tenv(s0, vals[t])):
                 return False, "default state %d accepts %s" % (s0, t)
         except tables.Unsupported as e:
             return False, "transition test outside the table vocabulary (%s)" % e
@@ -1308,7 +1334,9 @@ def rule_accept_guard(res, rid, m):
                   "an accepting path of addSegment advances the stored sequence counter %d times (%s): the next well-formed segment is then rejected as "
                   "out of sequence" % (len(incs), "other writes: %d" % len(other_cnt)))
         st = [x for (d, kind), x in ws if d == role["segment state"] and kind == "assign"]
-        okst = len(st) == 1 and canon(strip_all_casts(st[0]["r"])) in {canon(strip_all_casts(a2[3]["args"][0])) for a2 in atoms
+        _ivt = fb.fn(SEG + "::isValidSegmentType")
+        _ni = transition_binding(m, _ivt, role["segment state"])[1]
+        okst = len(st) == 1 and canon(strip_all_casts(facts.expand(f, st[0]["r"]))) in {canon(strip_all_casts(facts.expand(f, facts.effective_call(a2[3])["args"][_ni]))) for a2 in atoms
                                                                      if a2[0] == "truth" and a2[3].get("k") == "call" and callee_name(a2[3]) == SEG + "::isValidSegmentType"}
         res.check(okst, rid, "addSegment:accept-stores-state%s" % tag, r.get("loc"), "the segment state becomes the accepted segment's type",
                   "an accepting path of addSegment does not store the accepted segment's type as the new state")
@@ -1320,7 +1348,7 @@ def rule_accept_guard(res, rid, m):
             "firstSegment": {"intermediarySegment", "lastSegment"}, "intermediarySegment": {"intermediarySegment", "lastSegment"}}
     if set(vals) != set(want):
         raise Broken("SegmentType enumerators changed: %s" % sorted(vals))
-    state_field = "this->" + role["segment state"].split("::")[-1]
+    tenv, _ = transition_binding(m, ivt, role["segment state"])
     # segment types that can reach addSegment at all: when decode hands it continuation segments only, the answers for
     # `unsegmented` and `firstSegment` are unobservable and a table that rejects them is the same program
     reach = set(want)
@@ -1334,13 +1362,13 @@ def rule_accept_guard(res, rid, m):
         for t in sorted(want):
             if t not in reach:
                 try:
-                    tables.ceval(ivt, {state_field: vals[s], ivt.params[0]["decl"]: vals[t], "__fb__": fb})
+                    tables.ceval(ivt, tenv(vals[s], vals[t]))
                 except tables.Unsupported as e:
                     raise Broken("isValidSegmentType outside the table vocabulary: %s" % e)
                 res.ok(rid, "transition:%s->%s" % (s, t), ivt.loc, "%s -> %s: never asked (addSegment only receives continuation segments)" % (s, t))
                 continue
             try:
-                got = tables.ceval(ivt, {state_field: vals[s], ivt.params[0]["decl"]: vals[t], "__fb__": fb})
+                got = tables.ceval(ivt, tenv(vals[s], vals[t]))
             except tables.Unsupported as e:
                 raise Broken("isValidSegmentType outside the table vocabulary: %s" % e)
             exp = t in want[s]
@@ -1867,7 +1895,9 @@ def rule_reject_reasons(res, rid, m):
         if not p.atoms:
             res.bad(rid, "reject:unconditional", r.get("loc"), "addSegment rejects unconditionally")
             continue
-        a = p.atoms[-1]
+        # (the result local of an inlined helper says nothing by itself: the reason is the test inside the helper that gave it its value)
+        own = [b for b in p.atoms if not (b[0] == "truth" and strip_all_casts(b[3]).get("inlined_from"))]
+        a = own[-1] if own else p.atoms[-1]
         key, why = reason_of(a)
         if key is None and a[0] == "truth" and a[2] is False:
             # rejected because a conjunction of conditions failed (`const bool ok = A && B && C; if (!ok) return false;`):
